@@ -11,6 +11,7 @@ import (
 	"bytes"
 	"encoding/json"
 	"fmt"
+	"strings"
 
 	"github.com/google/pprof/internal/zzverif/vdrv"
 	"github.com/google/pprof/internal/zzverif/vlib"
@@ -40,7 +41,54 @@ func main() {
 		}
 	})
 	randomDriver()
+	bulkPart()
 	run.Finish("cases = Codec.tla catalogue: label shapes (0..3 values per key, every order of empty/non-empty string values and of {0,n} x {no unit, unit}), ids around the dense/sparse threshold incl. huge ones, unused and shared entities, 0..3 inline lines, 0..4 locations per sample and 0..4 sample types (packed threshold), header variants, nil/empty period type; each concretised twice (plain; int64/uint64 extremes + decorated/non-UTF8 strings) and pushed through Write/WriteUncompressed x Parse/ParseData/ParseUncompressed, Copy and `pprof -proto`; non-trivial = profile for which Norm changes something or that uses sparse ids, packed fields or multi-valued labels, distinct by profile")
+}
+
+// bulkPart: the same round-trip law on valid profiles that are large and extremely redundant (the compressed form is
+// hundreds of times smaller than the serialisation): 200k identical unaggregated samples; a name of one megabyte
+func bulkPart() {
+	mk := func(name string, n int) *profile.Profile {
+		fn := &profile.Function{ID: 1, Name: name, SystemName: name, Filename: "f.c"}
+		m := &profile.Mapping{ID: 1, Start: 0x1000, Limit: 0x2000, File: "bin"}
+		loc := &profile.Location{ID: 1, Mapping: m, Address: 0x1010, Line: []profile.Line{{Function: fn, Line: 3}}}
+		p := &profile.Profile{SampleType: []*profile.ValueType{{Type: "samples", Unit: "count"}}, PeriodType: &profile.ValueType{Type: "cpu", Unit: "ns"}, Period: 1,
+			Function: []*profile.Function{fn}, Mapping: []*profile.Mapping{m}, Location: []*profile.Location{loc}}
+		for i := 0; i < n; i++ {
+			p.Sample = append(p.Sample, &profile.Sample{Location: []*profile.Location{loc}, Value: []int64{1}})
+		}
+		return p
+	}
+	for _, c := range []struct {
+		what string
+		p    *profile.Profile
+	}{{"200k-identical-samples", mk("f", 200000)}, {"megabyte-name", mk(strings.Repeat("a", 1<<20), 3)}} {
+		for _, v := range variants() {
+			func() {
+				defer func() {
+					if r := recover(); r != nil {
+						run.Violate(v.name, "panic:"+v.name, fmt.Sprint(c.what, ": ", r), c.what, nil)
+					}
+				}()
+				run.Count("bulk|" + c.what + "|" + v.name)
+				q, err := v.fn(c.p)
+				if err != nil {
+					run.Violate(v.name, "error:"+v.name, fmt.Sprintf("[bulk %s] %v", c.what, err), c.what, nil)
+					return
+				}
+				if len(q.Sample) != len(c.p.Sample) || len(q.Function) != 1 || q.Function[0].Name != c.p.Function[0].Name {
+					run.Violate(v.name, "roundtrip:bulk", fmt.Sprintf("[bulk %s %s] %d samples, %d functions after the round trip of %d samples", c.what, v.name, len(q.Sample), len(q.Function), len(c.p.Sample)), c.what, nil)
+					return
+				}
+				for i, s := range q.Sample {
+					if len(s.Value) != 1 || s.Value[0] != 1 || len(s.Location) != 1 || s.Location[0].Address != 0x1010 {
+						run.Violate(v.name, "roundtrip:bulk", fmt.Sprintf("[bulk %s %s] sample %d changed", c.what, v.name, i), c.what, nil)
+						return
+					}
+				}
+			}()
+		}
+	}
 }
 
 func nontrivial(c *ccase) string {
